@@ -56,6 +56,9 @@ func (a *act) bodyEnv(st *State, at *ssa.BasicBlock) *specEnv {
 	env.at = at
 	env.old = a.entry
 	env.vars = map[string]Val{}
+	for k, v := range a.lets {
+		env.vars[k] = v
+	}
 	return env
 }
 
@@ -235,6 +238,33 @@ func (env *specEnv) eval(x *Expr) (Val, error) {
 		return e.unbox(f[1], t, env.st), nil
 	}
 	return Val{}, fmt.Errorf("unsupported spec expression %s", x)
+}
+
+// fmtVerbPrefix returns the literal text preceding the k-th (0-based) formatting verb of a format string.
+func fmtVerbPrefix(format string, k int) (string, bool) {
+	n := 0
+	last := 0
+	for i := 0; i < len(format); i++ {
+		if format[i] != '%' {
+			continue
+		}
+		if i+1 < len(format) && format[i+1] == '%' {
+			i++
+			continue
+		}
+		// verb: flags/width/precision then a letter
+		j := i + 1
+		for j < len(format) && !((format[j] >= 'a' && format[j] <= 'z') || (format[j] >= 'A' && format[j] <= 'Z')) {
+			j++
+		}
+		if n == k {
+			return format[last:i], true
+		}
+		n++
+		last = j + 1
+		i = j
+	}
+	return "", false
 }
 
 // roundFloat64 rounds a constant to the nearest float64, as Go does when an untyped constant meets a float64.
@@ -521,12 +551,28 @@ func (env *specEnv) tryIdent(name string) (Val, bool) {
 }
 
 func (e *Engine) pkgByName(name string) *ssa.Package {
+	// deterministic: a module package with that name first, then the standard-library package whose path is the
+	// name itself (math, strings), then the candidate with the smallest path
 	var found *ssa.Package
+	rank := func(sp *ssa.Package) int {
+		switch {
+		case strings.HasPrefix(sp.Pkg.Path(), modPath):
+			return 0
+		case sp.Pkg.Path() == name:
+			return 1
+		case strings.HasPrefix(sp.Pkg.Path(), "oss.terrastruct.com/"):
+			return 2
+		case strings.Contains(sp.Pkg.Path(), "internal/"):
+			return 4
+		}
+		return 3
+	}
 	for _, sp := range e.spkg {
-		if sp.Pkg.Name() == name {
-			if strings.HasPrefix(sp.Pkg.Path(), modPath) || found == nil {
-				found = sp
-			}
+		if sp.Pkg.Name() != name {
+			continue
+		}
+		if found == nil || rank(sp) < rank(found) || (rank(sp) == rank(found) && sp.Pkg.Path() < found.Pkg.Path()) {
+			found = sp
 		}
 	}
 	return found
@@ -842,6 +888,42 @@ func (env *specEnv) call(x *Expr) (Val, error) {
 		}
 		k, _ := strconv.Atoi(vs[0].T[0].S)
 		return env.callArg(k)
+	case "zero":
+		// zero(T): the zero value of a type
+		if len(args) != 1 {
+			return Val{}, fmt.Errorf("zero takes a type")
+		}
+		t, err := env.parseType(args[0].String())
+		if err != nil {
+			return Val{}, err
+		}
+		return e.zero(t), nil
+	case "verbPrefix":
+		// verbPrefix(k): the literal text of the call's constant format string (first argument) between verb k-1
+		// and verb k; ties an argument position to what the format says around it
+		vs, err := evalArgs()
+		if err != nil {
+			return Val{}, err
+		}
+		k, _ := strconv.Atoi(vs[0].T[0].S)
+		if len(env.callArgs) == 0 || len(env.callArgs[0].T) != 1 {
+			return Val{}, fmt.Errorf("verbPrefix outside a call anchor with a format string")
+		}
+		var format string
+		found := false
+		for s, t := range e.cur.lits {
+			if t.S == env.callArgs[0].T[0].S {
+				format, found = s, true
+			}
+		}
+		if !found {
+			return Val{}, fmt.Errorf("verbPrefix: the format string is not a constant")
+		}
+		pre, ok := fmtVerbPrefix(format, k)
+		if !ok {
+			return Val{}, fmt.Errorf("verbPrefix(%d): the format has fewer verbs", k)
+		}
+		return Val{Typ: tString, T: []Term{e.strLit(pre)}}, nil
 	case "param":
 		vs, err := evalArgs()
 		if err != nil {
@@ -1219,6 +1301,10 @@ func firstTerm(v Val) string {
 func (env *specEnv) havocTarget(x *Expr, st *State) error {
 	e := env.e
 	a := env.a
+	if x.Op == "ident" && x.Name == "anything" {
+		a.havocAll(st)
+		return nil
+	}
 	if x.Op == "call" && x.Args[0].Op == "ident" && x.Args[0].Name == "all" {
 		for _, arg := range x.Args[1:] {
 			hs := e.heapsMatching(arg.String())
@@ -1226,7 +1312,7 @@ func (env *specEnv) havocTarget(x *Expr, st *State) error {
 				return fmt.Errorf("no heap family matches %s", arg)
 			}
 			for _, h := range hs {
-				st.heap[h] = e.cur.log.fresh(h, e.cur.heapSorts[h])
+				e.heapReplace(st, h, e.cur.log.fresh(h, e.cur.heapSorts[h]))
 			}
 		}
 		return nil
